@@ -10,7 +10,7 @@ HH=$(cat "$VERIF"/harness/*.cpp "$VERIF"/harness/*.h | sha256sum | cut -c1-12)
 EXE="$LIBDIR/$NAME-$HH"
 EXTRA=""
 case "$NAME" in
-  sim|simtls) SRC="$VERIF/harness/$NAME.cpp $VERIF/harness/vos.cpp" ;;
+  sim|simtls|sched) SRC="$VERIF/harness/$NAME.cpp $VERIF/harness/vos.cpp" ;;
   *) SRC="$VERIF/harness/$NAME.cpp" ;;
 esac
 case "$FLAVOUR" in tls*) EXTRA="-lssl -lcrypto" ;; esac
